@@ -150,6 +150,11 @@ def gen_batch(seed):
         opts = [o for i, o in enumerate(opts) if o != "--junit" and (i == 0 or opts[i - 1] != "--junit")]
         want_junit = False
     sandbox = [workload.sb_entry(n, d, "644") for n, d in files]
+    local = rng.random() < 0.12
+    if local:
+        # user rules from a directory: os.listdir order decides the order of the rule objects
+        sandbox += workload.local_rules(rng)
+        opts += ["-lr", "lr"]
     if cfg is not None:
         sandbox.append(workload.sb_entry("cfg.json", common.json_bytes(cfg)))
         opts += ["-c", "cfg.json"]
@@ -180,7 +185,7 @@ def gen_batch(seed):
         "stdin": None,
         "faults": [],
         "decisions": None,
-        "meta": {"files": meta, "fix": fix, "jobs": jobs if jobs is not None else "default(%d)" % cpu, "dup": dup, "stop": stop, "style": style, "of": of, "json": want_json, "junit": want_junit, "glob": globbed, "config": cfg is not None},
+        "meta": {"files": meta, "fix": fix, "jobs": jobs if jobs is not None else "default(%d)" % cpu, "dup": dup, "stop": stop, "style": style, "of": of, "json": want_json, "junit": want_junit, "glob": globbed, "config": cfg is not None, "local_rules": local},
     }
 
 
@@ -273,7 +278,9 @@ def refine_config(desc, env):
         for _ in range(rng.randint(1, 4)):
             u = rng.choice(pool)
             k = rng.random()
-            rr[u] = {"disable": True} if k < 0.7 else ({"severity": "Warning"} if k < 0.85 else {"fixable": False})
+            # (no severity here: a severity inside a per-file block raises AttributeError on the pinned
+            # tree, in the solo run as well - C19's subject - and the batch would be excluded)
+            rr[u] = {"disable": True} if k < 0.75 else {"fixable": False}
         sect.append({n: {"rule": rr}})
     if rng.random() < 0.7:
         top = cfg.setdefault("rule", {})
@@ -799,6 +806,8 @@ def run_job(job, env):
                 out.probe("batch_contains_rejected_file")
             if d["meta"].get("glob"):
                 out.probe("glob_argument")
+            if d["meta"].get("local_rules"):
+                out.probe("local_rules_directory")
             if d["meta"].get("config"):
                 out.probe("configuration_stack")
             out.probe("reference_in_other_hashseed_class")
